@@ -125,6 +125,9 @@ var ungeneratable = []struct {
 	{"unknown-type-with-format-ipv4", `{"type":["junk","null"],"format":"ipv4"}`, false},
 	{"unknown-type-with-format-time", `{"type":"String","format":"time"}`, false},
 	{"unknown-type-with-format-ipv6", `{"type":"text","format":"ipv6"}`, false},
+	{"empty-definition-name", `{"$ref":"#/$defs/"}`, false},
+	{"mixed-enum-with-object-value", `{"enum":["a",1,{"x":1}]}`, false},
+	{"mixed-enum-with-array-value", `{"enum":[1,"b",["x"]]}`, false},
 	{"multi-type-additional-properties", `{"type":"object","properties":{"p":{"type":"string"}},"additionalProperties":{"type":["string","integer"]}}`, false},
 }
 
@@ -404,7 +407,7 @@ func TestC18(t *testing.T) {
 		case "content":
 			v := f.Render()
 			var text string
-			nullInYAML := false
+			nullInYAML, forceJSON := false, false
 			switch rapid.IntRange(0, 6).Draw(rt, "contentkind") {
 			case 6:
 				// a null where a subschema is expected (property value, definition, branch), in a file
@@ -444,6 +447,17 @@ func TestC18(t *testing.T) {
 			case 4:
 				text = string(rapid.SliceOfN(rapid.Byte(), 0, 200).Draw(rt, "bytes"))
 				cc.What = "random bytes"
+				if rapid.Bool().Draw(rt, "trailing") {
+					// a complete document followed by something that is not JSON
+					if c.Avoid("input.trailing_garbage") {
+						c.ExcludedMap()["input.trailing_garbage"]++
+					} else {
+						text = string(v.Indent()) + rapid.SampledFrom([]string{" junk", "\n}", "\n{\"type\": \"bogus\"", " ]", "\n\x00"}).Draw(rt, "garbage")
+						cc.What = "trailing garbage after a complete JSON document"
+						cc.MustErr = true
+						forceJSON = true
+					}
+				}
 			default:
 				mv, what := mutateSchema(rt, c, v)
 				mv2, what2 := mutateSchema(rt, c, mv)
@@ -451,7 +465,7 @@ func TestC18(t *testing.T) {
 				text = string(mv2.Indent())
 			}
 			name := "prog.json"
-			if rapid.IntRange(0, 4).Draw(rt, "asyaml") == 0 || nullInYAML {
+			if (rapid.IntRange(0, 4).Draw(rt, "asyaml") == 0 || nullInYAML) && !forceJSON {
 				name = "prog.yaml"
 			}
 			cc.Case = &gen.Case{Files: []gen.FileText{{RelPath: name, Text: text}}, Inputs: []string{name}, Config: cfg}
@@ -484,6 +498,10 @@ func TestC18(t *testing.T) {
 				return
 			}
 			u := ungeneratable[rapid.IntRange(0, len(ungeneratable)-1).Draw(rt, "element")]
+			if sw := map[string]string{"empty-definition-name": "refs.empty_definition_name", "mixed-enum-with-object-value": "enums.mixed_with_non_primitive_value", "mixed-enum-with-array-value": "enums.mixed_with_non_primitive_value"}[u.name]; sw != "" && c.Avoid(sw) {
+				c.ExcludedMap()[sw]++
+				u = ungeneratable[0]
+			}
 			mv, inj := injectInto(rt, c, f, jv.MustParse(u.json), u.defOnly)
 			if inj == nil {
 				c.Count("inject.no_site")
